@@ -53,7 +53,7 @@ pub fn run(ctx: &mut Ctx) {
             } else {
                 0
             };
-            let total = if big { ctx.n(150, 2500) } else { draws.max(need.min(ctx.n(6000, 60000))) };
+            let total = if big { ctx.n(400, 4000) } else { draws.max(need.min(ctx.n(6000, 60000))) };
             for _ in 0..total {
                 ctx.rec.count("draws", 1);
                 match guarded(|| CodeGenerator::random_bool_vector(*size, *sp)) {
@@ -189,7 +189,8 @@ pub fn run(ctx: &mut Ctx) {
     ctx.rec.checkpoint();
 
     // ---- random_integer / random_float through the configuration ----------------------------
-    let fpairs: [(f32, f32); 9] = [(-1.0, 1.0), (0.0, 1e-30), (2.0, 2.0), (3.0, -3.0), (f32::MIN, f32::MAX), (f32::NEG_INFINITY, 0.0), (0.0, f32::INFINITY), (f32::NAN, 1.0), (1.0, 1.0000001)];
+    // (incl. intervals narrower than, and not aligned with, the 0.001 printing grid: a value snapped to a grid leaves them)
+    let fpairs: [(f32, f32); 13] = [(-1.0, 1.0), (0.0, 1e-30), (2.0, 2.0), (3.0, -3.0), (f32::MIN, f32::MAX), (f32::NEG_INFINITY, 0.0), (0.0, f32::INFINITY), (f32::NAN, 1.0), (1.0, 1.0000001), (0.0, 0.01), (1.0, 1.004), (-0.002, 0.002), (0.1234, 0.1239)];
     for (lo, hi) in pairs.iter() {
         for (flo, fhi) in fpairs.iter() {
             case += 1;
